@@ -181,6 +181,14 @@ pub fn step(ctx: &Ctx, w: &World, ev: &mut Ev) {
                     ev.violation("feed_previous", if nb == 0 { "n0" } else { "n_gt_0" }, json!({"n": nb.to_string(), "got": got.to_string(), "expected": exp.to_string()}));
                 }
             }
+            // n = number of submissions (or more): no such round was ever submitted, whatever is served is nobody's value
+            for extra in [0u128, 1] {
+                let n = count as u128 + extra;
+                if let Ok(x) = w.q(pf, json!({"get_previous_price": {"key": key, "num_round_back": n.to_string()}})) {
+                    ev.eval(true, &("feed_previous_beyond", extra as u64), || json!({"source": "feed", "query": "previous", "n": n.to_string(), "submissions": count, "served": x.clone()}));
+                    ev.violation("feed_previous", if extra == 0 { "served_beyond_history,n_eq_submissions" } else { "served_beyond_history,n_gt_submissions" }, json!({"n": n.to_string(), "submissions": count, "served": x}));
+                }
+            }
             let first_t = series[0].0;
             let last_t = series[count - 1].0;
             let hist = now.saturating_sub(first_t);
